@@ -287,6 +287,12 @@ impl<'a, R: RealNumberInternalTrait> Interpreter<'a, R> {
     ) -> Result<Value<R>> {
         let mut current_procedure = None;
         loop {
+            #[cfg(ruschm_verif)]
+            if !verif_spend_fuel() {
+                return error!(LogicError::Extension(
+                    "verif: evaluation fuel exhausted".to_string()
+                ));
+            }
             let procedure = if current_procedure.is_none() {
                 initial_procedure
             } else {
@@ -746,6 +752,33 @@ impl<'a, R: RealNumberInternalTrait> Interpreter<'a, R> {
         self.program_directory = path.parent().map(Path::to_owned);
         self.eval(file_char_stream(&path)?)
     }
+}
+
+// Verification hook H3 (additive, compiled only with `--cfg ruschm_verif`): a per-thread budget
+// of procedure applications, so that a harness can turn a non-terminating evaluation into a
+// reported error instead of hanging. Unlimited unless a harness sets it.
+#[cfg(ruschm_verif)]
+thread_local! {
+    static VERIF_FUEL: std::cell::Cell<u64> = std::cell::Cell::new(u64::MAX);
+}
+#[cfg(ruschm_verif)]
+pub fn verif_set_fuel(applications: u64) {
+    VERIF_FUEL.with(|f| f.set(applications));
+}
+#[cfg(ruschm_verif)]
+pub fn verif_fuel_left() -> u64 {
+    VERIF_FUEL.with(|f| f.get())
+}
+#[cfg(ruschm_verif)]
+fn verif_spend_fuel() -> bool {
+    VERIF_FUEL.with(|f| match f.get() {
+        0 => false,
+        u64::MAX => true,
+        n => {
+            f.set(n - 1);
+            true
+        }
+    })
 }
 
 /// Verification hooks (guard: `--cfg ruschm_verif`): read-only views of private loader state.
